@@ -196,7 +196,7 @@ class Harness:
         out = []
         for n, s, m in self.obls:
             if s is None:
-                out.append({'name': n, 'verdict': 'unsat', 'backend': 'z3-simplifier', 'time': 0.0, 'model': None, **m})
+                out.append({'name': n, 'verdict': 'unsat', 'backend': 'poly-normal-form' if m.get('kind') == 'poly' else ('structural' if m.get('kind') == 'struct' else 'z3-simplifier'), 'time': 0.0, 'model': None, **m})
             else:
                 r = dict(byname[n])
                 r.update(m)
